@@ -25,12 +25,12 @@ type Step struct {
 
 // Loc is a symbolic pointer.
 type Loc struct {
-	Cell   int // >0 local cell
-	Global *ssa.Global
-	Ref    *T         // heap root
-	Snap   *T         // read-only snapshot root (element of a slice value)
+	Cell    int // >0 local cell
+	Global  *ssa.Global
+	Ref     *T         // heap root
+	Snap    *T         // read-only snapshot root (element of a slice value)
 	Pointee types.Type // type of the root object
-	Path   []Step
+	Path    []Step
 }
 
 type FnVal struct {
@@ -44,13 +44,15 @@ type Val struct {
 	Tuple []Val
 	Fn    *FnVal
 	// slice view over a local cell holding an array
-	Back    int
-	BackLen *T
-	BackOff *T
+	Back     int
+	BackLen  *T
+	BackOff  *T
 	BackElem types.Type
 }
 
-func (v Val) IsZero() bool { return v.T == nil && v.Ptr == nil && v.Tuple == nil && v.Fn == nil && v.Back == 0 }
+func (v Val) IsZero() bool {
+	return v.T == nil && v.Ptr == nil && v.Tuple == nil && v.Fn == nil && v.Back == 0
+}
 
 // ---------------- state ----------------
 
@@ -128,15 +130,15 @@ type Query struct {
 }
 
 type Obligation struct {
-	Name    string
-	Func    string
-	Kind    string
-	Props   []string
-	Text    string
-	Queries []*Query
-	Status  string // discharged failed undecided
-	Pos     string
-	Assumed bool // assumption-only (not checked)
+	Name       string
+	Func       string
+	Kind       string
+	Props      []string
+	Text       string
+	Queries    []*Query
+	Status     string // discharged failed undecided
+	Pos        string
+	Assumed    bool // assumption-only (not checked)
 	ExpectFail bool // vacuity canary: must be sat
 }
 
@@ -148,23 +150,23 @@ func unsupp(format string, a ...interface{}) {
 
 // Ex is the executor for one top-level function / lemma.
 type Ex struct {
-	W        *World
-	Obls     map[string]*Obligation
-	OblOrder []string
-	nfresh   int
-	ncell    int
-	Paths    int
-	MaxPaths int
-	MaxInline int
-	Notes    map[string]bool // assumptions used (unmodelled externs, trusted contracts)
-	Props    map[string]bool // properties whose clauses are to be checked (nil = all)
-	Safety   bool            // generate no-panic obligations
-	FrameChk bool            // generate store/frame obligations (C18)
-	LevelChk bool            // ghost frame level tracking (C16)
-	Top      *Frame
-	covers   int
+	W            *World
+	Obls         map[string]*Obligation
+	OblOrder     []string
+	nfresh       int
+	ncell        int
+	Paths        int
+	MaxPaths     int
+	MaxInline    int
+	Notes        map[string]bool // assumptions used (unmodelled externs, trusted contracts)
+	Props        map[string]bool // properties whose clauses are to be checked (nil = all)
+	Safety       bool            // generate no-panic obligations
+	FrameChk     bool            // generate store/frame obligations (C18)
+	LevelChk     bool            // ghost frame level tracking (C16)
+	Top          *Frame
+	covers       int
 	pendingFacts []*T
-	Partial  []string // paths abandoned because they left the supported subset
+	Partial      []string // paths abandoned because they left the supported subset
 }
 
 type loopInfo struct {
@@ -175,23 +177,23 @@ type loopInfo struct {
 }
 
 type Frame struct {
-	Fn       *ssa.Function
-	Ctr      *Contract
-	Parent   *Frame
-	Args     []Val
-	Bindings []Val
-	Entry    *State
-	OnReturn func(st *State, results []Val)
-	Top      bool
-	Loops    map[*ssa.BasicBlock]*loopInfo
-	Name     string
-	Depth    int
-	Lvl      *T // ghost frame level (C16)
-	counters map[string]int
-	instrOrd map[ssa.Instruction]int
-	MayPanic *T // condition under which this (top) function is allowed to panic
+	Fn        *ssa.Function
+	Ctr       *Contract
+	Parent    *Frame
+	Args      []Val
+	Bindings  []Val
+	Entry     *State
+	OnReturn  func(st *State, results []Val)
+	Top       bool
+	Loops     map[*ssa.BasicBlock]*loopInfo
+	Name      string
+	Depth     int
+	Lvl       *T // ghost frame level (C16)
+	counters  map[string]int
+	instrOrd  map[ssa.Instruction]int
+	MayPanic  *T // condition under which this (top) function is allowed to panic
 	LemmaVars map[string]SV
-	CurLoop  *loopInfo
+	CurLoop   *loopInfo
 }
 
 func NewEx(w *World) *Ex {
@@ -1063,7 +1065,7 @@ func (ex *Ex) binop(fr *Frame, st *State, x *ssa.BinOp) Val {
 				// comparing interfaces with identical non-comparable dynamic types panics
 				if !isNilConst(x.X) && !isNilConst(x.Y) {
 					ex.panicCheck(fr, st, "ifaceeq", x, "== on interfaces holding a non-comparable dynamic type",
-						Or(Not(Eq(Dyn(at), Dyn(bt))), App("comparable", SBool, Dyn(at))))
+						Or(Not(Eq(Dyn(at), Dyn(bt))), Eq(Dyn(at), IntLit(0)), App("comparable", SBool, Dyn(at))))
 				}
 				eq = IfaceEq(at, bt)
 			case isSliceT(xt):
